@@ -198,7 +198,7 @@ def main():
         lines.append('r%d = %s' % (li, call))
         try:
           r = eval(call, env)   # pylint: disable=eval-used
-          want.append((False, [type(v).__name__ for v in r] if isinstance(r, tuple) else None))
+          want.append((False, [type(v).__name__ for v in r] if isinstance(r, tuple) and r else None))   # () carries no parameter to compare
         except TypeError:
           want.append((True, None))
       prog = '\n'.join(lines) + '\n'
